@@ -8,7 +8,7 @@ from . import sorts as S
 from .sorts import Node, Ty, I, B, R
 from .symex import (Unsupported, PathAbort, PyRaise, ExcVal, ExcClass, Obj, ClassRef, ModuleRef,
                     FuncVal, Builtin, ContentView, PayloadView, ArgsView, QVars, ZSetTuple,
-                    SetVal, DictVal, Opaque, FloatVal, Frame,
+                    SetVal, DictVal, Opaque, FloatVal, Frame, SeqList, PrefList,
                     is_z3, is_node, is_ty, is_sym_int, is_sym_bool, is_sym_real, is_sym_str,
                     is_zset, to_int, to_real, to_bool, to_str, is_numeric, is_boolish,
                     is_realish, is_intish, is_strish, concrete, z3const)
@@ -535,6 +535,50 @@ def install(world):
     def list_sort(ex, a, kw):
         a[0][:] = b_sorted(ex, [a[0]], kw)
     meth("list", "sort", list_sort)
+
+    # symbolic-length lists
+    def sl_append(ex, a, kw):
+        a[0].expr = z3.Concat(a[0].expr, z3.Unit(a[1]))
+
+    def sl_pop(ex, a, kw):
+        s = a[0]
+        if len(a) > 1:
+            raise Unsupported("pop(i) on a symbolic list")
+        n = z3.Length(s.expr)
+        if ex.decide(n == 0):
+            raise PyRaise(ExcVal("IndexError", ("pop from empty list",)))
+        x = s.expr[n - 1]
+        s.expr = z3.Extract(s.expr, 0, n - 1)
+        return x
+
+    def sl_extend(ex, a, kw):
+        o = a[1]
+        if isinstance(o, SeqList):
+            a[0].expr = z3.Concat(a[0].expr, o.expr)
+        else:
+            for x in BI.iterate(W, ex, o):
+                a[0].expr = z3.Concat(a[0].expr, z3.Unit(x))
+
+    def sl_clear(ex, a, kw):
+        a[0].expr = z3.Empty(a[0].expr.sort())
+    meth("SeqList", "append", sl_append)
+    meth("SeqList", "pop", sl_pop)
+    meth("SeqList", "extend", sl_extend)
+    meth("SeqList", "clear", sl_clear)
+    meth("SeqList", "copy", lambda ex, a, kw: SeqList(a[0].expr))
+
+    def pl_pop(ex, a, kw):
+        l = a[0]
+        if len(a) > 1:
+            raise Unsupported("pop(i) on a prefix list")
+        if l.items:
+            return l.items.pop()
+        if is_z3(l.prefix_len) or l.prefix_len > 0:
+            ex.notes.append("prefix-depth-bound")
+            raise PathAbort("prefix-depth-bound")
+        raise PyRaise(ExcVal("IndexError", ("pop from empty list",)))
+    meth("PrefList", "append", lambda ex, a, kw: a[0].items.append(a[1]))
+    meth("PrefList", "pop", pl_pop)
 
     # dict (concrete python dict and DictVal)
     def d_get(ex, a, kw):
